@@ -70,6 +70,11 @@ def vmConv (src dst : Kind) (x : BitVec 64) : Except Fault (BitVec 64) :=
   if src = dst then .ok x
   else if src.signed then vmConvertInt dst x else vmConvertUint dst x
 
+/-- `string(x)` for `x` of integer kind `src`: `OpConvertInt` / `OpConvertUint` by the signedness
+of the source, destination type of kind String -/
+def vmConvStr (src : Kind) (x : BitVec 64) : Bytes :=
+  if src.signed then vmConvertIntStr x else vmConvertUintStr x
+
 /-- the condition `emitComparison` chooses -/
 def condOf (op : CmpOp) (k : Kind) : Cond :=
   match op, k.signed with
